@@ -70,6 +70,16 @@ func c12ScenariosX(n, t int, extra bool) []Scenario {
 	add("topa-dir", "topa-dir", Call{Cmd: "topa", Sam: samIndel, Ref: ref, PairDir: true})
 	add("topa-stdout-window", "topa-stdout", Call{Cmd: "topa", Sam: sam, Ref: ref, Start: 2, End: 8, OmitRef: true})
 	add("samvariants-gb", "samvariants", Call{Cmd: "samvariants", Sam: samIndel, Ref: ref, Anno: gb, AnnoSuffix: "gb"})
+	// consecutive queries whose insertions have the same total length at different sites (per-worker state
+	// that is only refreshed when a width changes shows as a dependence on which worker gets which query)
+	samIns := samHeader(12) + samRec("q0", 0, 1, "3M2I9M", "ATGGGAAATAACCC") + samRec("q1", 0, 1, "6M2I6M", "ATGAAAGGTAACCC")
+	if n > 2 {
+		samIns += samRec("q2", 0, 1, "9M2I3M", "CTGAAATAAGGCCC")
+	}
+	if n > 3 {
+		samIns += samRec("q3", 0, 1, "12M", "ATGAAATAACCA")
+	}
+	add("samvariants-ins-sites", "samvariants", Call{Cmd: "samvariants", Sam: samIns, Ref: ref, Anno: gb, AnnoSuffix: "gb"})
 	add("samvariants-gff", "samvariants-gff", Call{Cmd: "samvariants", Sam: sam, Ref: ref, Anno: gff, AnnoSuffix: "gff"})
 	add("samvariants-agg", "samvariants-agg", Call{Cmd: "samvariants", Sam: sam, Ref: ref, Anno: gb2, AnnoSuffix: "gb", Aggregate: true})
 	add("variants-gb", "variants", Call{Cmd: "variants", Msa: msaS, RefID: "ref", Anno: gb, AnnoSuffix: "gb"})
